@@ -17,6 +17,7 @@ EVID = os.path.join(ROOT, "evidence")
 REPLAYS = os.path.join(WORK, "replays")
 JAR = "/opt/veriftools/tla/tla2tools.jar:/opt/veriftools/tla/CommunityModules-deps.jar"
 INT_LIMIT = 1 << 30
+KNOWN_CLASS = {"Trace_Quant": "F6"}
 
 
 class ToolError(Exception):
@@ -388,6 +389,7 @@ def validate_trace(ctx, trace_module, constants, obs_path, prop, tagbase, chunk=
         text = open(out_path, errors="replace").read()
         b = parse_register(text, "BAD")
         d = parse_register(text, "DRIFT")
+        kn = set(parse_register(text, "KNOWN") or [])
         m = re.search(r'<<"CONSUMED", (\d+), "OF", (\d+)>>', text)
         if b is None or d is None or not m or "Model checking completed" not in text:
             raise ToolError("trace validation failed to run (see %s)" % out_path)
@@ -395,7 +397,10 @@ def validate_trace(ctx, trace_module, constants, obs_path, prop, tagbase, chunk=
             raise ToolError("trace validation consumed %s of %d events (see %s)" % (m.group(1), len(ch), out_path))
         consumed += len(ch)
         for x in b:
-            bad.append(json.loads(ch[x - 1]))
+            rec = json.loads(ch[x - 1])
+            if x in kn:
+                rec["known_class"] = KNOWN_CLASS.get(trace_module, "?")     # the specification recognised a recorded known finding
+            bad.append(rec)
         for x in d:
             drift.append(json.loads(ch[x - 1]))
     return bad, drift, consumed
